@@ -228,9 +228,8 @@ func checkC07(c *Check) {
 		}
 		return false, false
 	}
-	// world: recordErr != nil (remove edges establishing nil)
-	errWorld := ra.F.AvoidImplying(func(atom ast.Expr) (bool, bool) { w, ok := isErrTest(atom); return !w, ok })
-	rejectRet := func(pt Pt) bool { _, ret := ra.F.Exit(pt); return polOf(ret) == "PolicyReject" }
+	// world: recordErr != nil (remove edges establishing nil). The failure branch may be written in Apply itself or in
+	// a function of the package Apply returns the result of (`return lookupFailed(data)`): such a delegation is followed.
 	tempTest := func(atom ast.Expr) (bool, bool) {
 		found := false
 		ast.Inspect(atom, func(n ast.Node) bool {
@@ -241,18 +240,58 @@ func checkC07(c *Check) {
 		})
 		return true, found
 	}
-	_, hasReject := ra.F.Reach(Query{From: ra.Entry(), Inclusive: true, Target: rejectRet, AvoidEdge: errWorld})
-	noTemp := func(b *cfgBlock, i int) bool {
-		if errWorld(b, i) {
-			return true
+	var errWorld func(b *cfgBlock, i int) bool
+	var rejectRet func(pt Pt) bool
+	var failClosed func(g *RuleCtx, depth int) (hasReject, rejectWithoutTemp bool)
+	failClosed = func(g *RuleCtx, depth int) (bool, bool) {
+		ew := g.F.AvoidImplying(func(atom ast.Expr) (bool, bool) { w, ok := isErrTest(atom); return !w, ok })
+		rr := func(pt Pt) bool { _, ret := g.F.Exit(pt); return polOf(ret) == "PolicyReject" }
+		_, hasReject := g.F.Reach(Query{From: g.Entry(), Inclusive: true, Target: rr, AvoidEdge: ew})
+		noTemp := func(b *cfgBlock, i int) bool {
+			if ew(b, i) {
+				return true
+			}
+			cond, isCase := g.F.Cond(b)
+			if cond == nil || isCase {
+				return false
+			}
+			return edgeImplies(cond, i, tempTest) || (i == 0 && func() bool { _, m := tempTest(cond); return m }())
 		}
-		cond, isCase := ra.F.Cond(b)
-		if cond == nil || isCase {
-			return false
+		_, rejectWithoutTemp := g.F.Reach(Query{From: g.Entry(), Inclusive: true, Target: rr, AvoidEdge: noTemp})
+		if depth < 2 {
+			// delegations reachable in the failure world
+			for _, blk := range g.F.G.Blocks {
+				pt := Pt{blk, len(blk.Nodes)}
+				_, ret := g.F.Exit(pt)
+				if ret == nil || len(ret.Results) != 1 {
+					continue
+				}
+				call, ok := ast.Unparen(ret.Results[0]).(*ast.CallExpr)
+				if !ok {
+					continue
+				}
+				fn := callee(g.Info, call)
+				if fn == nil || fn.Pkg() != g.FI.Obj.Pkg() {
+					continue
+				}
+				d := c.P.DeclOf(fn)
+				if d == nil || d.Decl.Body == nil {
+					continue
+				}
+				if _, reach := g.F.Reach(Query{From: g.Entry(), Inclusive: true, Target: func(q Pt) bool { return q == pt }, AvoidEdge: ew}); !reach {
+					continue
+				}
+				hr, rw := failClosed(c.CtxOf(d), depth+1)
+				hasReject = hasReject || hr
+				rejectWithoutTemp = rejectWithoutTemp || rw
+			}
 		}
-		return edgeImplies(cond, i, tempTest) || (i == 0 && func() bool { _, m := tempTest(cond); return m }())
+		return hasReject, rejectWithoutTemp
 	}
-	_, rejectWithoutTemp := ra.F.Reach(Query{From: ra.Entry(), Inclusive: true, Target: rejectRet, AvoidEdge: noTemp})
+	errWorld = ra.F.AvoidImplying(func(atom ast.Expr) (bool, bool) { w, ok := isErrTest(atom); return !w, ok })
+	rejectRet = func(pt Pt) bool { _, ret := ra.F.Exit(pt); return polOf(ret) == "PolicyReject" }
+	_, _ = errWorld, rejectRet
+	hasReject, rejectWithoutTemp := failClosed(ra, 0)
 	msg := ""
 	if !hasReject {
 		msg = "a temporary failure of the policy lookup does not lead to a reject (fail open): the message is accepted although the sender's policy could not be fetched"
@@ -263,7 +302,33 @@ func checkC07(c *Check) {
 	// reader/writer agreement on the error form
 	usesAs := false
 	var assertedT types.Type
-	ast.Inspect(ra.FI.Decl.Body, func(n ast.Node) bool {
+	var scanBodies []ast.Node
+	scanBodies = append(scanBodies, ra.FI.Decl.Body)
+	for _, call := range callsIn(ra.FI.Decl.Body) {
+		if fn := callee(info, call); fn != nil && fn.Pkg() == ra.FI.Obj.Pkg() && fn != ra.FI.Obj {
+			if d := c.P.DeclOf(fn); d != nil && d.Decl.Body != nil {
+				scanBodies = append(scanBodies, d.Decl.Body)
+			}
+		}
+	}
+	for _, sb := range scanBodies {
+		ast.Inspect(sb, func(n ast.Node) bool {
+			switch x := n.(type) {
+			case *ast.CallExpr:
+				if isCall(info, x, "errors.As", "errors.Is") {
+					usesAs = true
+				}
+			case *ast.TypeAssertExpr:
+				if x.Type != nil {
+					if s, ok := ast.Unparen(x.X).(*ast.SelectorExpr); ok && s.Sel.Name == "recordErr" {
+						assertedT = info.TypeOf(x.Type)
+					}
+				}
+			}
+			return true
+		})
+	}
+	ast.Inspect(&ast.BlockStmt{}, func(n ast.Node) bool {
 		switch x := n.(type) {
 		case *ast.CallExpr:
 			if isCall(info, x, "errors.As", "errors.Is") {
